@@ -15,6 +15,14 @@ def main():
         p = "Props/%s.vo" % c["property_id"]
         if os.path.exists(os.path.join(core.COQ, p[:-1])):
             targets.append(p)
+    # the case/model files used by the correspondence stage are usually outside the Props cones
+    claimed = set(c["property_id"] for c in man["checks"])
+    for rel in core.coq_sources():
+        base = os.path.basename(rel)
+        if rel.startswith("Model/") and (base[:3] in claimed or not base[:1] == "C" or not base[1:3].isdigit()):
+            t = rel[:-2] + ".vo"
+            if t not in targets:
+                targets.append(t)
     good, log = core.coq_make(["-k"] + targets, timeout=3400)
     print(log[-4000:])
     print("setup: built %d property cones, ok=%s" % (len(targets), good))
